@@ -18,7 +18,7 @@ META = {
 def run(rep):
     lr.rule_scanner(rep, "C04.line", "C04.line")
     lr.rule_line_basics(rep, "C04.indent")
-    mr.rule_sink(rep, "C04.col", "C04.crlf", want=("col",))
+    mr.rule_sink(rep, "C04.col", "C04.crlf", want=("col", "fields"))
     mr.rule_token_table(rep, "C04.kinds", "C04.col")
     lr.rule_split(rep, "C04.split", "C04.cells")
     lr.rule_split_init(rep, "C04.cells")
